@@ -132,6 +132,27 @@ theorem doubleC_char (g : Bool) (kalloc : Nat) :
     · simp [doubleC, h]
     · simp [doubleC, hg]
 
+
+/-- the guarded code never executes an overflowing doubling: whatever the start value and the need, the loop ends with a
+    covering `salloc` or throws `eslEMEM` -/
+theorem growC_guarded_no_overflow (need : Nat) : ∀ (fuel s r : Nat), growC true need fuel s ≠ .overflow r
+  | 0, _, _ => by simp [growC]
+  | fuel+1, s, r => by
+    simp only [growC, Bool.true_and]
+    by_cases hn : need > s
+    · by_cases hg : s > INT_MAX / 2
+      · simp [hn, hg]
+      · have ho : ¬ s * 2 > INT_MAX := by simp only [INT_MAX] at hg ⊢; omega
+        simp only [hn, hg, ho, ↓reduceIte, decide_false, Bool.false_eq_true]
+        exact growC_guarded_no_overflow need fuel (s * 2) r
+    · simp [hn]
+
+theorem doubleC_guarded_no_overflow (kalloc r : Nat) : doubleC true kalloc ≠ .overflow r := by
+  by_cases hg : kalloc > INT_MAX / 2
+  · simp [doubleC, hg]
+  · have ho : ¬ kalloc * 2 > INT_MAX := by simp only [INT_MAX] at hg ⊢; omega
+    simp [doubleC, hg, ho]
+
 /-- `3*kh->hashsize` in `uint32_t`: below the growth stop (`hashsize < 2^28`) it does not wrap, so the test
     `nkeys > 3*hashsize` is the one the `Nat` model evaluates -/
 theorem upsize_trigger_exact (h : UInt32) (hh : h.toNat < 2 ^ 28) : (3 * h).toNat = 3 * h.toNat := by
